@@ -32,3 +32,26 @@ Proof.
     change (N.land Consts.AWAKE_NOTIFIED Consts.AWAKE_NOTIFIED) with 1.
     destruct (N.land f Consts.AWAKE_NOTIFIED); reflexivity.
 Qed.
+
+(* ---- io_uring poll_entries: how a completion is classified ------------------------------- *)
+From Compio.Model Require DriverKeys.
+
+(* the NOTIFY completion the kernel posts: with MORE the multishot poll lives on, without it
+   the poll has ended *)
+Definition notify_cqe (more : bool) : cqe := if more then CNotify else CFinal.
+
+(* the condition under which poll_entries sets NEED_PUSH_NOTIFIER, as the source has it now, is
+   the model's: exactly the final (MORE-less) NOTIFY completion makes the driver arm the
+   notifier again, and every NOTIFY completion clears the eventfd *)
+Theorem notify_rearm_tie : forall more a,
+  need_push (apply_cqe (notify_cqe more) a) = (Frag.iour_notify_rearm more || need_push a)%bool
+  /\ efd (apply_cqe (notify_cqe more) a) = 0%nat.
+Proof. intros more a. destruct more; split; reflexivity. Qed.
+
+(* an operation's completion is handled as non-final (result pushed to the multishot queue, the
+   key stays in in_flight, the leaked reference stays with the kernel) exactly when the source's
+   condition holds, otherwise as the final one (in_flight.remove + Entry::notify) *)
+Theorem cqe_class_tie : forall more k,
+  (if Frag.iour_cqe_more more then DriverKeys.ECqeMore k else DriverKeys.ECqeFinal k)
+  = (if more then DriverKeys.ECqeMore k else DriverKeys.ECqeFinal k).
+Proof. intros more k. reflexivity. Qed.
